@@ -118,6 +118,51 @@ TCRefObs(t, entry) ==
                         ELSE <<>>]]
 
 \* =================================================================================
+\* SCALE: the laws that decide a big table from small ones
+\* A table with 10^5 rows, 700 columns or a 3000-element sub-array cannot be enumerated, and a
+\* header longer than a stdio block is only reached by such a table.  The clauses above are
+\* conjunctions over rows, over columns and over elements, hence:
+\*   row law     : for an observation with the table's row count, the whole is accepted iff
+\*                 every block of consecutive rows is, and every clause the whole fails is
+\*                 failed by some block (TCRowSplitLaw);
+\*   column law  : the same for groups of consecutive columns, for an observation with the
+\*                 table's number of fields (and of header dtype entries) (TCColSplitLaw);
+\*   element law : the writer makes no difference between a field of n elements and n scalar
+\*                 fields (TCUnroll, checked on the mechanism), so a wide sub-array is a wide
+\*                 table;
+\*   write law   : the text of a table is the concatenation of the texts of its row blocks.
+\* TLC checks the laws on every table of the bounded families against the rows the scanner
+\* models return (wrong ones included).  A *scale record* of the trace module is judged
+\* through them: a count clause for the split axis plus the clauses of the distinct
+\* (written part, observed part) pairs, each a small table (TCScaleFailing).
+\* =================================================================================
+TCRowsOf(t, a, b)  == [fields |-> t.fields, rows |-> SubSeq(t.rows, a, b)]
+TCObsRows(o, a, b) == [o EXCEPT !.rows = SubSeq(o.rows, a, b)]
+TCColsOf(t, a, b)  == [fields |-> SubSeq(t.fields, a, b), rows |-> [r \in 1..Len(t.rows) |-> SubSeq(t.rows[r], a, b)]]
+TCObsCols(o, a, b) == [o EXCEPT !.fields = SubSeq(o.fields, a, b),
+                                !.rows = [r \in 1..Len(o.rows) |-> SubSeq(o.rows[r], a, b)],
+                                !.hdr = [o.hdr EXCEPT !.dtype = IF o.hdr.has THEN SubSeq(o.hdr.dtype, a, b) ELSE <<>>]]
+TCSplitAgrees(whole, parts) == whole \subseteq parts /\ (parts = {} <=> whole = {})
+TCRowSplitLaw(t, o) ==
+    (o.err = "none" /\ Len(o.rows) = Len(t.rows)) =>
+        \A k \in 1..(Len(t.rows) - 1) :
+            TCSplitAgrees(TCFailing(t, o), TCFailing(TCRowsOf(t, 1, k), TCObsRows(o, 1, k))
+                                           \cup TCFailing(TCRowsOf(t, k + 1, Len(t.rows)), TCObsRows(o, k + 1, Len(t.rows))))
+TCColSplitLaw(t, o) ==
+    (o.err = "none" /\ Len(o.fields) = Len(t.fields) /\ TCRowShapeOK(t, o) /\ (o.hdr.has => Len(o.hdr.dtype) = Len(t.fields))) =>
+        \A k \in 1..(Len(t.fields) - 1) :
+            TCSplitAgrees(TCFailing(t, o), TCFailing(TCColsOf(t, 1, k), TCObsCols(o, 1, k))
+                                           \cup TCFailing(TCColsOf(t, k + 1, Len(t.fields)), TCObsCols(o, k + 1, Len(t.fields))))
+
+\* a scale record: [axis : "rows"|"cols"|"elems", nw, no : written / observed count along the axis
+\* (rows; fields; elements of the widened field), hw, ho : written / observed number of header dtype entries
+\* (0 when there is no header), err, parts : Seq([t, obs])]
+TCScaleFrameFailing(r) ==
+    IF r.err # "none" THEN {"rows_error"}
+    ELSE (IF r.no = r.nw THEN {} ELSE {IF r.axis = "rows" THEN "rows_count" ELSE IF r.axis = "cols" THEN "names" ELSE "shapes"}) \cup
+         (IF r.ho = r.hw THEN {} ELSE {"hdr_dtype"})
+
+\* =================================================================================
 \* MECHANISM LEVEL  (records.cpp)
 \*   dc     : delimiter class.  "plain" (',' ':' ';' '|'): scan format "%d <delim>";
 \*            "tab": the format is "%d \t" - both trailing characters are white-space
@@ -239,6 +284,14 @@ TCWriteRowsD(t, c, wr) == TCFlat([r \in 1..Len(t.rows) |-> TCWriteRowD(t.fields,
 \* a number that is not the first value of its row (it is written after a separator)
 TCHasLedNumber(t) == \E r \in 1..Len(t.rows) : LET vs == TCRowVals(t.fields, t.rows[r])
                                                 IN \E k \in 2..Len(vs) : ~TCIsStr(vs[k].fld)
+
+\* ---- the writer's scale laws: row blocks concatenate, a sub-array is written like scalar fields
+TCUnroll(t) == [fields |-> TCFlat([i \in 1..Len(t.fields) |-> [e \in 1..TCNel(t.fields[i]) |-> [t.fields[i] EXCEPT !.sh = <<>>]]]),
+                rows   |-> [r \in 1..Len(t.rows) |-> TCFlat([i \in 1..Len(t.fields) |-> [e \in 1..Len(t.rows[r][i]) |-> <<t.rows[r][i][e]>>]])]]
+TCWriteLaws(t) ==
+    /\ \A k \in 1..(Len(t.rows) - 1) :
+          TCWriteRows(t) = TCWriteRows(TCRowsOf(t, 1, k)) \o TCWriteRows(TCRowsOf(t, k + 1, Len(t.rows)))
+    /\ TCWriteRows(TCUnroll(t)) = TCWriteRows(t)
 
 \* ---- scanner --------------------------------------------------------------------------
 RECURSIVE TCSkipWS(_, _, _)
